@@ -285,6 +285,12 @@ FuzzyExactly == InPair => \A i \in Chain :
 (* the base world is complete: every pair compares with a defined hash *)
 BaseComplete == \A i \in Chain : CompleteFrom(a, i)
 
+(* witnesses for the vacuity guard: each of these must be VIOLATED by the family (the driver requires it) *)
+NoAspectMatters       == InPair => \A i \in Chain : Strong(a, i) = Strong(b, i) /\ Fuzzy(a, i) = Fuzzy(b, i)
+EveryAspectMatters    == (InPair /\ asp.kind # "identity") => Strong(a, 1) # Strong(b, 1)
+FuzzyIsStrong         == InPair => \A i \in Chain : (Strong(a, i) = Strong(b, i)) <=> (Fuzzy(a, i) = Fuzzy(b, i))
+NeverUndefined        == \A i \in Chain : Strong(b, i).def /\ Fuzzy(b, i).def
+
 ---------------------------------------------------------------------------
 (* Emission of the pairs for the conformance driver *)
 Rel(x, y) == IF x = y THEN "eq" ELSE "neq"
